@@ -85,15 +85,14 @@ class ParallelStep(GeneticStep):
         assert len(self.steps) == len(self.weights)
 
     def compute_ranges(self, population, target_size):
-        """Computes the ranges for each slide, according to weights."""
+        """Computes the ranges for each slide, according to weights.
+
+        The boundaries are the rounded cumulative shares of target_size, so the slices are
+        contiguous, never negative and always add up to exactly target_size."""
         total = sum(self.weights)
-        indices = [0] + self.cumsum(
-            [int(round(w * len(population) / total, 0)) for w in self.weights],
-        )
-        ranges = list(zip(indices, indices[1:]))
-        if ranges[-1][0] < target_size:
-            ranges[-1] = (ranges[-1][0], target_size)
-        return ranges
+        indices = [0] + [int(round(acc * target_size / total, 0)) for acc in self.cumsum(self.weights)]
+        indices[-1] = target_size
+        return list(zip(indices, indices[1:]))
 
     def iterate(
         self,
@@ -154,13 +153,8 @@ class ExclusiveParallelStep(ParallelStep):
         generation: int,
     ) -> Iterator[Individual]:
         npopulation: list[Individual] = list(population)
-        total = sum(self.weights)
-        indices = [0] + self.cumsum(
-            [int(round(w * len(npopulation) / total, 0)) for w in self.weights],
-        )
-        ranges = list(zip(indices, indices[1:]))
+        ranges = self.compute_ranges(npopulation, target_size)
         assert len(ranges) == len(self.steps)
-        ranges[-1] = (ranges[-1][0], target_size)  # Fix the last position
 
         for (start, end), step in zip(ranges, self.steps):
             yield from step.apply(
